@@ -9,6 +9,7 @@ import (
 	"encoding/json"
 	"fmt"
 	"reflect"
+	"strconv"
 	"strings"
 
 	"github.com/robertkrimen/otto"
@@ -44,9 +45,10 @@ type request struct {
 }
 
 type contSpec struct {
-	Kind string `json:"kind"` // pstruct | vstruct | map | slice | parray | varray
-	T    string `json:"t"`    // type name in m16's table (S, map[string]int8, []int, IntSl, *[3]int, [3]int …)
-	Init m16.GV `json:"init"`
+	Kind  string `json:"kind"` // pstruct | vstruct | map | slice | parray | varray | field
+	T     string `json:"t"`    // type name in m16's table (S, map[string]int8, []int, IntSl, *[3]int, [3]int …; field: the struct, Holder)
+	Field string `json:"field,omitempty"` // field: the container is this field of a *T, reached as G.<Field> on every step
+	Init  m16.GV `json:"init"`
 }
 
 type step struct {
@@ -186,8 +188,53 @@ func newVM() *otto.Otto {
 	if _, err := vm.Run(prelude); err != nil {
 		panic("prelude: " + err.Error())
 	}
+	must(vm.Set("__gonum", func(c otto.FunctionCall) otto.Value {
+		kind, _ := c.Argument(0).ToString()
+		text, _ := c.Argument(1).ToString()
+		var g interface{}
+		if kind == "float32" {
+			g = float32(m16.ParseCanon(text))
+		} else if kind[0] == 'u' {
+			u, err := strconv.ParseUint(text, 10, 64)
+			must(err)
+			switch kind {
+			case "uint64":
+				g = u
+			case "uint":
+				g = uint(u)
+			case "uint32":
+				g = uint32(u)
+			case "uint16":
+				g = uint16(u)
+			default:
+				g = uint8(u)
+			}
+		} else {
+			i, err := strconv.ParseInt(text, 10, 64)
+			must(err)
+			switch kind {
+			case "int64":
+				g = i
+			case "int":
+				g = int(i)
+			case "int32":
+				g = int32(i)
+			case "int16":
+				g = int16(i)
+			default:
+				g = int8(i)
+			}
+		}
+		v, err := otto.ToValue(g)
+		must(err)
+		return v
+	}))
 	for _, f := range m16.Fixtures {
 		must(vm.Set("G_"+f.Name, f.Make()))
+	}
+	// the same-named struct types are used one after the other in every runtime (TwinB first)
+	if _, err := vm.Run(`[G_twb.p, G_twb.q, G_twb.R, G_twb.Z, G_twb.P, G_twb.Q, G_twa.R]`); err != nil {
+		panic("twin warm-up: " + err.Error())
 	}
 	return vm
 }
@@ -320,8 +367,8 @@ func (c *liveCont) install(vm *otto.Otto) {
 func buildCont(spec contSpec) *liveCont {
 	c := &liveCont{spec: spec}
 	switch spec.Kind {
-	case "pstruct":
-		c.typ = m16.TypeOf(spec.T) // "S"
+	case "pstruct", "field":
+		c.typ = m16.TypeOf(spec.T) // "S", "TwinA", "Holder"
 		p := reflect.New(c.typ)
 		p.Elem().Set(m16.Build(c.typ, spec.Init))
 		c.host = p
@@ -351,20 +398,33 @@ func buildCont(spec contSpec) *liveCont {
 	return c
 }
 
-// viewNames: extra names read on every step - json tags, promoted names, the unexported field.
+// viewNames: extra names read on every step - json tags, promoted names, unexported and unknown names.
 func viewNames(c *liveCont) []string {
 	switch c.spec.Kind {
 	case "pstruct", "vstruct":
-		return []string{"a", "bee", "f32", "i16", "in2", "why", "X", "Y", "hid", "Skip", "zzz"}
+		return append(structNames(c.typ), "hid", "zzz")
 	case "map":
 		return []string{"zzz", "Total"}
+	}
+	if c.spec.Kind == "field" && c.typ.Kind() == reflect.Struct {
+		if f, ok := c.typ.FieldByName(c.spec.Field); ok && f.Type.Kind() == reflect.Map {
+			return []string{"zzz", "Total"}
+		}
 	}
 	return []string{"zzz", "hid"}
 }
 
+// recv is the expression that denotes the container in the script.
+func (c *liveCont) recv() string {
+	if c.spec.Kind == "field" {
+		return "G." + c.spec.Field
+	}
+	return "G"
+}
+
 func (c *liveCont) observe(vm *otto.Otto, o *stepObs) {
 	names, _ := json.Marshal(viewNames(c))
-	r := harness.Run(vm, "__VIEW(G, "+string(names)+")")
+	r := harness.Run(vm, "__VIEW("+c.recv()+", "+string(names)+")")
 	switch {
 	case r.Panicked:
 		o.ViewErr = "panic: " + fmt.Sprint(r.Panic)
@@ -390,72 +450,101 @@ func (c *liveCont) observe(vm *otto.Otto, o *stepObs) {
 		}
 		return
 	}
+	if c.spec.Kind == "field" {
+		o.Go = m16.Describe(c.host.Elem().FieldByName(c.spec.Field))
+		return
+	}
 	o.Go = m16.Describe(c.host)
 }
 
-func keySrc(k string) string { return "G[" + m16.JSString(k) + "]" }
+func keySrc(recv, k string) string { return recv + "[" + m16.JSString(k) + "]" }
 
-func stepSrc(s step) string {
+func stepSrc(s step) string { return stepSrcOn("G", s) }
+
+func stepSrcOn(G string, s step) string {
 	val := "undefined"
 	if s.Val != nil {
 		val = s.Val.Src()
 	}
 	switch s.Op {
 	case "set":
-		return "(" + keySrc(s.Key) + " = " + val + ")"
+		return "(" + keySrc(G, s.Key) + " = " + val + ")"
 	case "get":
-		return keySrc(s.Key)
+		return keySrc(G, s.Key)
 	case "has":
-		return "(" + m16.JSString(s.Key) + " in G)"
+		return "(" + m16.JSString(s.Key) + " in " + G + ")"
 	case "del":
-		return "(delete " + keySrc(s.Key) + ")"
+		return "(delete " + keySrc(G, s.Key) + ")"
 	case "define":
-		return "(Object.defineProperty(G, " + m16.JSString(s.Key) + ", {value: " + val + ", writable: true, enumerable: true, configurable: true}), true)"
+		return "(Object.defineProperty(" + G + ", " + m16.JSString(s.Key) + ", {value: " + val + ", writable: true, enumerable: true, configurable: true}), true)"
 	case "len":
-		return "(G.length = " + val + ")"
+		return "(" + G + ".length = " + val + ")"
 	case "push":
-		return "G.push(" + val + ")"
+		return G + ".push(" + val + ")"
 	case "pop":
-		return "G.pop()"
+		return G + ".pop()"
+	case "shift":
+		return G + ".shift()"
+	case "splice":
+		return G + ".splice(" + val + ", 1).length"
 	case "call":
 		var a []string
 		for _, v := range s.Args {
 			a = append(a, v.Src())
 		}
-		return "G[" + m16.JSString(s.Method) + "](" + strings.Join(a, ",") + ")"
+		return G + "[" + m16.JSString(s.Method) + "](" + strings.Join(a, ",") + ")"
 	}
 	panic("unknown script op " + s.Op)
 }
 
 func (c *liveCont) goMutate(s step) {
 	h := c.host
-	switch c.spec.Kind {
+	kind := c.spec.Kind
+	typ := c.typ
+	if kind == "field" {
+		h = c.host.Elem().FieldByName(c.spec.Field)
+		typ = h.Type()
+		switch h.Kind() {
+		case reflect.Map:
+			kind = "map"
+		case reflect.Slice:
+			kind = "slice"
+		default: // array, addressable
+			var i int
+			fmt.Sscanf(s.Key, "%d", &i)
+			if i < h.Len() {
+				h.Index(i).Set(m16.Build(typ.Elem(), *s.Go))
+			}
+			return
+		}
+	}
+	switch kind {
 	case "pstruct":
 		f := h.Elem().FieldByName(s.Key)
 		f.Set(m16.Build(f.Type(), *s.Go))
 	case "map":
-		kv := reflect.New(c.typ.Key()).Elem()
+		kv := reflect.New(typ.Key()).Elem()
 		if kv.Kind() == reflect.String {
 			kv.SetString(s.Key)
 		} else {
-			kv.Set(m16.Build(c.typ.Key(), m16.Num(s.Key)))
+			kv.Set(m16.Build(typ.Key(), m16.Num(s.Key)))
 		}
 		if s.Op == "godel" {
 			h.SetMapIndex(kv, reflect.Value{})
 		} else {
-			h.SetMapIndex(kv, m16.Build(c.typ.Elem(), *s.Go))
+			h.SetMapIndex(kv, m16.Build(typ.Elem(), *s.Go))
 		}
 	case "slice":
 		var i int
 		fmt.Sscanf(s.Key, "%d", &i)
 		if i < h.Len() {
-			h.Index(i).Set(m16.Build(c.typ.Elem(), *s.Go))
+			h.Index(i).Set(m16.Build(typ.Elem(), *s.Go))
 		}
 	case "parray":
 		var i int
 		fmt.Sscanf(s.Key, "%d", &i)
 		if i < h.Elem().Len() {
-			h.Elem().Index(i).Set(m16.Build(c.typ.Elem().Elem(), *s.Go))
+			h.Elem().Index(i).Set(m16.Build(typ.Elem().Elem(), *s.Go))
 		}
 	}
 }
@@ -473,7 +562,7 @@ func runHist(q request, resp *response) {
 			c.goMutate(s)
 			o.Res = `{"ok":"u"}`
 		} else {
-			src := stepSrc(s)
+			src := stepSrcOn(c.recv(), s)
 			r := harness.Run(vm, "__R(function(){ return "+src+" })")
 			switch {
 			case r.Panicked:
